@@ -46,3 +46,9 @@ Theorem C08_views_sound : forall a i_sync,
   view_ok node_sync_bounds a i_sync = true -> deep false a = true /\ i_sync = true.
 Proof. apply (view_sound_of node_send_bounds node_sync_bounds ctor_resolver_bounds). vm_compute. reflexivity. Qed.
 Print Assumptions C08_views_sound.
+
+(* the syntax-kind parameter is a type-level tag — no value of it is stored in or reachable from a tree —, so the markers
+   put no bound on it: a tree over thread-safe data (and resolver) is Send + Sync whatever its kind type is *)
+Theorem C08_kind_parameter_unconstrained : node_kind_bounds = [].
+Proof. reflexivity. Qed.
+Print Assumptions C08_kind_parameter_unconstrained.
